@@ -263,7 +263,10 @@ Proof.
     intros e st ls st' H Hn Hw. destruct e; cbn [compile_els refs_els wf_els] in H, Hn, Hw.
     + inversion H; subst. split; [exact ok_C0|apply keeps_refl].
     + bind_in H. inversion H; subst; clear H. ih IHss E. destruct E as (Ho1 & Hk1).
-      split; auto. apply ok_cons_C0. apply ok_app; auto. exact ok_C0.
+      split; auto.
+      assert (A : ok (C0 :: l)) by (apply ok_cons_C0; exact Ho1).
+      assert (B : ok (C0 :: l ++ [C0])) by (apply ok_cons_C0; apply ok_app; auto; exact ok_C0).
+      destruct b as [|[] []]; auto.
     + bind_in H. inversion H; subst; clear H. ih IHs E. destruct E as (Ho1 & Hk1).
       split; auto.
   - (* compile_clauses *)
